@@ -286,3 +286,34 @@ pub fn peek_send_limits(s: &StreamsState) -> (u64, u64) {
 pub fn peek_data_recvd(s: &StreamsState) -> u64 {
     s.data_recvd
 }
+
+/// C05 / C17 ("including 0-RTT with remembered parameters" / "limits restart from the newly negotiated
+/// values"): a client that had remembered limits in force (and may have sent early data) learns that
+/// 0-RTT was rejected and then receives the server's fresh transport parameters.  Whatever the
+/// remembered values and the early activity were, afterwards the connection-level send limit, the
+/// stream-count limits and the early-data accounting are those of a fresh connection.
+/// No stream is open (the stream tables are hash maps): every value is symbolic, the tables are empty.
+pub fn zero_rtt_rejected_restart(remembered_max_data: u64, early_sent: u64, early_unacked: u64, old_bi: u64, old_uni: u64, new_max_data: u64, new_bi: u64, new_uni: u64) -> u32 {
+    if remembered_max_data >= V62 || new_max_data >= V62 || old_bi >= V62 || old_uni >= V62 || new_bi >= V62 || new_uni >= V62 {
+        return 0;
+    }
+    if early_sent > remembered_max_data || early_unacked > early_sent {
+        return 0;
+    }
+    let mut st = mk_streams(&Scalars { max: [old_bi, old_uni], max_data: remembered_max_data, data_sent: early_sent, unacked_data: early_unacked, send_window: 1 << 20, ..Default::default() });
+    st.zero_rtt_rejected();
+    let mut params = TransportParameters::default();
+    params.initial_max_data = unsafe { VarInt::from_u64_unchecked(new_max_data) };
+    params.initial_max_streams_bidi = unsafe { VarInt::from_u64_unchecked(new_bi) };
+    params.initial_max_streams_uni = unsafe { VarInt::from_u64_unchecked(new_uni) };
+    st.set_params(&params);
+    // the server's fresh limits are THE limits - also when they are lower than the remembered ones
+    assert!(st.max_data == new_max_data);
+    assert!(st.max[Dir::Bi as usize] == new_bi && st.max[Dir::Uni as usize] == new_uni);
+    // nothing of the early flight is still accounted
+    assert!(st.data_sent == 0);
+    assert!(st.unacked_data == 0);
+    let w = if new_max_data < remembered_max_data { 1 } else { 2 };
+    core::mem::forget(st);
+    w
+}
